@@ -1,8 +1,11 @@
 package checks
 
 import (
+	"context"
 	"encoding/json"
 	"fmt"
+	"github.com/jdillenkofer/pithos/internal/storage"
+	"io"
 	"os"
 	"path/filepath"
 	"sort"
@@ -193,10 +196,52 @@ func c10RunCase(c c10Case, root string, withGC bool) (out c10Outcome) {
 				out.GC = append(out.GC, ev.Violation{Class: "after-crash:" + f + "@" + siteKindOf(site), Summary: where + ", then restart and GC: " + d.String(), Replay: replay})
 			}
 		}
+		// an upload that survived the crash must still be usable: complete it and read the object
+		// (an operation that is "entirely absent" has not destroyed the parts of a pending upload)
+		if msg := c10CompleteSurvivingUploads(w); msg != "" {
+			out.Violations = append(out.Violations, ev.Violation{Class: "surviving-upload-unusable@" + siteKindOf(site), Summary: where + ": " + msg, Replay: replay})
+		}
 		w.Close()
 		os.RemoveAll(dir)
 	}
 	return
+}
+
+// c10CompleteSurvivingUploads completes every pending upload of bucket bka and reads the result.
+func c10CompleteSurvivingUploads(w *world.World) string {
+	ctx := context.Background()
+	bn := storage.MustNewBucketName("bka")
+	ups, err := w.Storage.ListMultipartUploads(ctx, bn, storage.ListMultipartUploadsOptions{MaxUploads: 1000})
+	if err != nil {
+		if sx.ErrKind(err) == "NoSuchBucket" {
+			return ""
+		}
+		return "ListMultipartUploads after restart: " + err.Error()
+	}
+	for _, u := range ups.Uploads {
+		parts, err := w.Storage.ListParts(ctx, bn, u.Key, u.UploadId, storage.ListPartsOptions{MaxParts: 1000})
+		if err != nil {
+			return fmt.Sprintf("ListParts of surviving upload %s: %v", u.Key, err)
+		}
+		if len(parts.Parts) == 0 {
+			continue
+		}
+		if _, err := w.Storage.CompleteMultipartUpload(ctx, bn, u.Key, u.UploadId, nil, nil); err != nil {
+			return fmt.Sprintf("completing the surviving upload of %s failed: %v", u.Key, err)
+		}
+		_, rs, err := w.Storage.GetObject(ctx, bn, u.Key, nil, nil)
+		if err != nil {
+			return fmt.Sprintf("object completed from the surviving upload of %s cannot be opened: %v", u.Key, err)
+		}
+		for _, r := range rs {
+			_, rerr := io.Copy(io.Discard, r)
+			r.Close()
+			if rerr != nil {
+				return fmt.Sprintf("object completed from the surviving upload of %s cannot be read: %v", u.Key, rerr)
+			}
+		}
+	}
+	return ""
 }
 
 // siteKindOf groups crash sites: "tx.precommit", "os.Rename", ...
